@@ -210,7 +210,12 @@ def run_scenario(sc, refeed=True):
         first = run_main(cfg_path, out)
         res = {"user_cfg": jsonable(user_cfg), "tmp": tmp, "error": first["error"], "checked": jsonable(first["checked"]),
                "margins": first["margins"], "input_geo": {}, "files": [], "others": [], "saved": None, "saved_error": None,
-               "refeed": None}
+               "refeed": None, "checked_wire": None, "saved_wire": None}
+        if first["checked"] is not None:
+            # exact wire form (Model/JVal.lean) of what check_conf returned, for the dictionary model of `main`
+            from .config_impl import to_wire
+
+            res["checked_wire"] = to_wire(first["checked"])
         with warnings.catch_warnings():
             warnings.simplefilter("ignore")
             for side, p in imgs.items():
@@ -224,7 +229,11 @@ def run_scenario(sc, refeed=True):
         saved_path = os.path.join(out, "cfg", "config.json")
         try:
             with open(saved_path, encoding="utf-8") as f:
-                res["saved"] = jsonable(json.load(f))
+                raw_saved = json.load(f)
+            res["saved"] = jsonable(raw_saved)
+            from .config_impl import to_wire
+
+            res["saved_wire"] = to_wire(raw_saved)
         except Exception as exc:  # pylint: disable=broad-except
             res["saved_error"] = f"{type(exc).__name__}: {exc}"
         if refeed and res["saved"] is not None:
